@@ -9,3 +9,5 @@ import VProps.C08
 #print axioms V.C08.history_ceiling
 #print axioms V.C08.accepted_history
 #print axioms V.C08.accepted_pl_notifications
+#print axioms V.C08.integer_only_levels_spelled
+#print axioms V.C08.accepted_pl_integer
